@@ -75,6 +75,7 @@ LEVELS_PAIR = (-1, 0, 1, 2)
 LEVELS_ALL = (-1, 0, 1, 2, 3)
 NSAMPLE = {"quick": 150, "thorough": 3000}     # sampled chunks (40 tuples each)
 NUSERS = {"quick": 120, "thorough": 1500}
+NBIG = {"quick": 40, "thorough": 1500}
 
 _dom_cache = {}
 
@@ -126,6 +127,38 @@ def shares(v, ids):
     return False
 
 
+def _deep(rng, depth):
+    d = {"a": rng.choice([0, 1]), "b": rng.choice([0, 1, "s"])}
+    for _ in range(depth):
+        k = rng.choice("ab")
+        up = {k: d}
+        if rng.random() < 0.4:
+            up["b" if k == "a" else "a"] = rng.choice([0, 1, "s", {}])
+        d = up
+    return d
+
+
+def _deep_perturb(rng, d, depth):
+    d = M.cp(d)
+    for _ in range(rng.randint(1, 2)):
+        at = rng.randint(int(depth * 0.5), depth + 1)
+        cur = d
+        for _lvl in range(at):
+            nxt = [v for v in cur.values() if M.isd(v) and v]
+            if not nxt:
+                break
+            cur = nxt[0]
+        x = rng.random()
+        k = rng.choice("ab")
+        if x < 0.4 and not M.isd(cur.get(k)):
+            cur[k] = rng.choice([2, "t", None])
+        elif x < 0.7:
+            cur["c"] = rng.choice([0, 1])
+        elif not M.isd(cur.get(k)):
+            cur.pop(k, None)
+    return d
+
+
 def cases(tier, seed):
     from rv import gen
     if tier == "quick":
@@ -152,6 +185,35 @@ def cases(tier, seed):
                 else M.rand_dict(rng, 3)
             items.append([a, b, c])
         yield {"k": "sample", "items": items}
+    # beyond the small sizes: chains nested 20..180 deep that differ near the bottom, and
+    # dictionaries with 17..300 keys per level
+    for i in range(NBIG[tier]):
+        rng = gen.rng_for(seed, "C07", "big", i)
+        items = []
+        for _ in range(4):
+            if rng.random() < 0.5:
+                depth = rng.choice([20, 33, 64, 65, 66, 100, 129, rng.randint(20, 180)])
+                a = _deep(rng, depth)
+                b = _deep_perturb(rng, a, depth)
+                c = _deep_perturb(rng, rng.choice([a, b]), depth)
+            else:
+                nk = rng.choice([17, 33, 64, 65, 100, 257, rng.randint(17, 300)])
+                keys = ["k%d" % j for j in range(nk)]
+                a = dict((k, M.rand_dict(rng, 2) if rng.random() < 0.3 else rng.choice([0, 1, "s", None]))
+                         for k in keys)
+                b, c = M.cp(a), M.cp(a)
+                for dd in (b, c):
+                    for k in rng.sample(keys, rng.randint(1, 6)):
+                        x = rng.random()
+                        if x < 0.3:
+                            dd.pop(k)
+                        elif x < 0.6:
+                            dd[k] = rng.choice([2, "t", {}, {"a": 1}])
+                        else:
+                            dd[k] = M.rand_dict(rng, 2)
+                    dd["extra%d" % rng.randint(0, 3)] = 1
+            items.append([a, b, c])
+        yield {"k": "sample", "items": items, "big": 1}
     for i in range(NUSERS[tier]):
         rng = gen.rng_for(seed, "C07", "u", i)
         a = M.rand_dict(rng, 3, keys=("a", "b", "output"))
